@@ -75,7 +75,7 @@ class EscapeSem(Semantics):
                 return True
             if isinstance(recv, ast.Constant) and isinstance(recv.value, str) and c.func.attr in STR_METHODS:
                 return True
-            if c.func.attr in ("append", "add", "keys", "items", "values", "get") and isinstance(recv, (ast.Name, ast.Attribute)):
+            if c.func.attr in ("append", "add", "keys", "items", "values", "get", "extend", "update", "setdefault", "copy") and isinstance(recv, (ast.Name, ast.Attribute)):
                 return True
         if isinstance(c.func, ast.Call) and dotted(c.func.func) == "super":
             return True
@@ -93,7 +93,15 @@ class EscapeSem(Semantics):
         return any(self.may_raise_expr(x) for x in ast.iter_child_nodes(st) if isinstance(x, ast.expr)) or \
             (isinstance(st, ast.Expr) and self.may_raise_expr(st.value))
 
+    tainted: set[str] | None = None  # locals that (may) carry the text or something computed from it; None = everything
+
     def simple_exc(self, state, st):
+        if self.tainted is not None:
+            unsafe = [c for x in ([st.value] if isinstance(st, ast.Expr) else [y for y in ast.iter_child_nodes(st) if isinstance(y, ast.expr)])
+                      for c in walk_local(x) if isinstance(c, ast.Call) and not self._call_safe(c)]
+            if unsafe and not any(isinstance(n, ast.Name) and n.id in self.tainted for c in unsafe for n in ast.walk(c)):
+                # a call of unknown effect that receives nothing derived from the text: outside the rule's statement, not decided
+                return (("exc", "unknown-unrelated", getattr(st, "lineno", 0)),)
         return (("exc", "unknown", getattr(st, "lineno", 0)),)
 
     def on_raise(self, state, st):
@@ -120,6 +128,27 @@ class EscapeSem(Semantics):
 def escape_kinds(f: Func, allowed: set[str], str_params: set[str], safe_funcs: set[str], helpers=None) -> tuple[set, int]:
     sem = EscapeSem(allowed, str_params, safe_funcs)
     sem.helpers = helpers
+    # flow-insensitive taint: the text parameters and everything assigned from an expression that mentions a tainted name
+    tainted = set(str_params) | {"self"} if False else set(str_params)
+    changed = True
+    while changed:
+        changed = False
+        for n in walk_body(f.node.body):
+            srcs: list[ast.AST] = []
+            tgts: list[ast.AST] = []
+            if isinstance(n, (ast.Assign, ast.AnnAssign, ast.AugAssign)) and getattr(n, "value", None) is not None:
+                srcs, tgts = [n.value], (n.targets if isinstance(n, ast.Assign) else [n.target])
+            elif isinstance(n, (ast.For, ast.comprehension)):
+                srcs, tgts = [n.iter], [n.target]
+            elif isinstance(n, ast.With):
+                srcs, tgts = [i_.context_expr for i_ in n.items], [i_.optional_vars for i_ in n.items if i_.optional_vars is not None]
+            if any(isinstance(x, ast.Name) and x.id in tainted for s_ in srcs for x in ast.walk(s_)):
+                for t_ in tgts:
+                    for x in ast.walk(t_):
+                        if isinstance(x, ast.Name) and x.id not in tainted:
+                            tainted.add(x.id)
+                            changed = True
+    sem.tainted = tainted
     out = Interp(sem).block(f.node.body, {("ok", None)})
     n_guarded = sum(1 for t in walk_body(f.node.body) if isinstance(t, ast.Try) for c in walk_body(t.body) if isinstance(c, ast.Call) and not sem._call_safe(c))
     sem.helper_guarded = 0
@@ -149,10 +178,13 @@ def r_exc_escape(ck: Checker, entries: list[tuple[str, str, set[str], set[str]]]
 
         kinds, n_guarded = escape_kinds(f, allowed, strp, safe, helpers)
         total_guarded += n_guarded
-        bad = sorted((k, l) for k, l in kinds if k not in allowed)
+        bad = sorted((k, l) for k, l in kinds if k not in allowed and k != "unknown-unrelated")
+        unrelated = sorted((k, l) for k, l in kinds if k == "unknown-unrelated")
         what = f"{q}: no exception other than {sorted(allowed) or 'none'} escapes (every call on the text's data flow is converted by a catch-all handler)"
         if bad:
             ck.violation(rule, f, f.node, what, construct=f"{q}: {bad[0][0]} exception may escape from line {bad[0][1]}", escaping=bad[:4])
+        elif unrelated:
+            raise Unsupported(f"{q}: a call of unknown effect that does not receive the text (line {unrelated[0][1]}) may raise; not decided", f.node)
         else:
             ck.holds(rule, f, f.node, what, guarded_calls=n_guarded, escaping=sorted({k for k, _ in kinds}))
             if not allowed:
@@ -273,7 +305,8 @@ def r_gram_exh(ck: Checker) -> None:
     c = ck.repo.cls(PAT, "PatternDefInterpreter")
     methods = {st.name: st for st in c.node.body if isinstance(st, ast.FunctionDef)}
     by_name: set[str] = set()
-    for st in methods.values():
+    for st0 in methods.values():
+        st = ck.repo.func(PAT, f"PatternDefInterpreter.{st0.name}").node if ck.repo.has_func(PAT, f"PatternDefInterpreter.{st0.name}") else st0  # normalised (match -> if)
         for n in ast.walk(st):
             if isinstance(n, ast.Compare) and len(n.ops) == 1 and isinstance(n.left, ast.Attribute) and n.left.attr == "data" \
                     and isinstance(n.comparators[0], ast.Constant) and isinstance(n.comparators[0].value, str):
